@@ -335,7 +335,19 @@ def _native_context(fields):
                            content=fields.get("file_content"), metadata={})
 
 
+def _native_header_config(fields):
+    from src.linters.file_header.config import FileHeaderConfig
+    return FileHeaderConfig()
+
+
+def _native_lazy_rule(fields):
+    from src.linters.lazy_ignores.linter import LazyIgnoresRule
+    return LazyIgnoresRule()
+
+
 FHRuleT.build_native = _native_header_rule
+FHConfigT.build_native = _native_header_config
+LazyRuleT.build_native = _native_lazy_rule
 CtxT.build_native = _native_context
 
 
